@@ -20,7 +20,7 @@ mod vutil;
 /// Global allocator that fills every fresh allocation with a poison pattern (VPH_POISON=1|2),
 /// so that a returned matrix element that was never written shows up as garbage (C10).
 struct Poison;
-static POISON_MODE: std::sync::atomic::AtomicU8 = std::sync::atomic::AtomicU8::new(0);
+pub static POISON_MODE: std::sync::atomic::AtomicU8 = std::sync::atomic::AtomicU8::new(0);
 unsafe impl std::alloc::GlobalAlloc for Poison {
     unsafe fn alloc(&self, layout: std::alloc::Layout) -> *mut u8 {
         let p = std::alloc::System.alloc(layout);
